@@ -1,6 +1,6 @@
 #!/usr/bin/env python3
 """Run the repository's pinned test suite (guard off) and compare with BASELINE.json stable_pass.
-usage: tools/baseline_check.py [-n N]   (prints regressions; exit 1 if any stable test no longer passes)"""
+usage: tools/baseline_check.py [-n N] [--repo DIR] [--semgrep]   (prints regressions; exit 1 if any stable test no longer passes)"""
 import json, os, subprocess, sys, tempfile
 import xml.etree.ElementTree as ET
 
@@ -10,7 +10,12 @@ fd, out = tempfile.mkstemp(suffix=".xml"); os.close(fd)
 env = dict(os.environ); env.pop("PIXEE_CODEMODDER_PYTHON_VERIF", None)
 n = sys.argv[sys.argv.index("-n") + 1] if "-n" in sys.argv else "14"
 cmd = ["/venv/bin/python", "-m", "pytest", "-q", "-p", "no:cacheprovider", "--timeout=900", "--continue-on-collection-errors", "-n", n, f"--junitxml={out}"]
-subprocess.run(cmd, cwd="/repo", env=env, stdout=subprocess.DEVNULL, stderr=subprocess.DEVNULL)
+repo = sys.argv[sys.argv.index("--repo") + 1] if "--repo" in sys.argv else "/repo"
+if repo != "/repo":
+    env["PYTHONPATH"] = repo + "/src"
+if "--semgrep" in sys.argv:  # also lets the semgrep-dependent (non-baseline) tests run: ~16 min instead of ~3
+    env["PATH"] = "/venv/bin:" + env.get("PATH", "")
+subprocess.run(cmd, cwd=repo, env=env, stdout=subprocess.DEVNULL, stderr=subprocess.DEVNULL)
 passed = set()
 for tc in ET.parse(out).getroot().iter("testcase"):
     if not any(c.tag in ("failure", "error", "skipped") for c in tc):
